@@ -398,6 +398,20 @@ func TestGenerated(t *testing.T) {
 		case kind == 8:
 			doc = rapid.SliceOfN(rapid.SampledFrom(alphabet), 0, 30).Draw(rt, "alpha")
 			evid.Label("gen.alphabet-random")
+		case kind == 9 && rapid.Bool().Draw(rt, "lateescape"):
+			// a value larger than the Decoder's read quantum / initial buffer whose first
+			// escape (or control / non-ASCII byte) only appears after a buffer boundary:
+			// whole-input flags computed on one buffer fill must not go stale
+			base := rapid.SampledFrom([]int{4096, 8192, 32768, 36864, 65536}).Draw(rt, "base")
+			plain := base + rapid.IntRange(-40, 200).Draw(rt, "delta")
+			special := rapid.SampledFrom([]string{`\"`, `\\`, `\n`, `\u00e9`, "\u00e9", "\x01", `\ud83d\ude00`, `\x`, "\xff", `"`}).Draw(rt, "special")
+			wrap := rapid.SampledFrom([]string{`["%s","next"]`, `"%s"`, `{"k":"%s","z":[1,"\""]}`, `["a\"b","%s"]`}).Draw(rt, "wrap")
+			body := strings.Repeat("x", plain) + special + strings.Repeat("y", rapid.IntRange(0, 50).Draw(rt, "tail"))
+			doc = []byte(strings.Replace(wrap, "%s", body, 1))
+			if rapid.Bool().Draw(rt, "two") {
+				doc = append(append(doc, ' '), doc...)
+			}
+			evid.Label("gen.large-late-special")
 		default:
 			// large document: array of many generated values (several KiB)
 			n := rapid.IntRange(20, 400).Draw(rt, "n")
